@@ -281,9 +281,54 @@ def guard_table(ctx):
     if len(calls) != 1:
         ctx.violation("R20.3", "expr_to_guard:shape", f["span"], "UNRECOGNISED: expr_to_guard is not a bottom_up_multi_pat traversal")
         return
-    get_children, combine = peel(calls[0]["args"][2]), peel(calls[0]["args"][3])
-    # children closure: collects for_each_child order, clears unless all are Boolean
-    okc = anyshow(get_children["body"], "expr.for_each_child(|c|children.push(*c))") and anyshow(get_children["body"], "children.iter().all(|e|ctx[*e].is_bool(ctx))") and anyshow(get_children["body"], "if!all_bool_children{children.clear()}")
+    def as_fn(e):
+        """a closure literal, a closure bound by a let, or a named function passed by reference: {params, body, sp}"""
+        e = resolve(e)
+        if e.get("k") == "closure":
+            return e
+        if e.get("k") == "def" and e.get("dk") in ("fn", "assoc_fn"):
+            for cr in ctx.facts.crates:
+                fl = cr.raw_fns.get(e.get("res") or e.get("path")) or cr.raw_fns.get(e.get("path"))
+                if fl and not cr.is_test:
+                    g_ = ctx.facts.lib(cr.name).fns.get(fl[0]["path"])
+                    g_ = g_[0] if g_ else fl[0]
+                    return {"k": "closure", "params": g_["params"], "body": g_["body"], "sp": g_.get("span")}
+        return None
+    get_children, combine = as_fn(calls[0]["args"][2]), as_fn(calls[0]["args"][3])
+    if get_children is None or combine is None or len(get_children["params"]) != 3 or len(combine["params"]) != 3:
+        ctx.violation("R20.3", "expr_to_guard:shape", f["span"], "UNRECOGNISED: the two callbacks of the traversal are not closures / functions of three parameters")
+        return
+    # children callback: collects the children in for_each_child order and drops them all unless every one is Boolean
+    gcx = Index(get_children["body"])
+    gp = [pat_bindings(p_) for p_ in get_children["params"]]
+    vec_id = gp[2][0][1] if len(gp[2]) == 1 else None
+    fec = [n for n in gcx.nodes if n.get("k") == "mcall" and n["name"] == "for_each_child"]
+    okc = len(fec) == 1 and vec_id is not None
+    if okc:
+        cl = resolve(fec[0]["args"][0])
+        cb_ = pat_bindings(cl["params"][0]) if cl.get("k") == "closure" and cl.get("params") else []
+        pushes = [x for x in walk(cl.get("body", {})) if x.get("k") == "mcall" and x["name"] == "push" and is_local(x["recv"], vec_id)]
+        okc = len(cb_) == 1 and len(pushes) == 1 and is_local(pushes[0]["args"][0], cb_[0][1]) and not any(x.get("k") == "if" for x in walk(cl["body"]))
+        clears = [n for n in gcx.nodes if n.get("k") == "mcall" and n["name"] == "clear" and is_local(n["recv"], vec_id)]
+        okc = okc and len(clears) == 1 and gcx.precedes(fec[0], clears[0])
+        if okc:
+            conds = norm_.path_conditions(gcx, clears[0])
+
+            def bool_test(c_, pol):
+                """the condition says: not every collected child is Boolean"""
+                b_, ms_ = chain(c_)
+                if not (is_local(b_, vec_id) and len(ms_) >= 2 and ms_[-1][0] in ("all", "any") and all(m_[0] in ("iter", "copied", "cloned") for m_ in ms_[:-1])):
+                    return False
+                pred = resolve(ms_[-1][1][0])
+                body = resolve(pred.get("body", {})) if pred.get("k") == "closure" else {}
+                neg = False
+                while body.get("k") == "unary" and body["op"] == "!":
+                    neg, body = not neg, resolve(body["e"])
+                is_bool = body.get("k") == "mcall" and body["name"] == "is_bool"
+                if ms_[-1][0] == "all":
+                    return is_bool and not neg and pol is False
+                return is_bool and neg and pol is True
+            okc = len(conds) == 1 and bool_test(*conds[0])
     ctx.inst("R20.3", "expr_to_guard:children", okc, get_children["sp"], "children must be collected in for_each_child order and dropped unless all of them are Boolean")
     m = None
     for n in walk(combine["body"]):
@@ -295,20 +340,27 @@ def guard_table(ctx):
         return
     cb = binding_of_pat(combine["params"][2])
     eb = binding_of_pat(combine["params"][1])
+
+    def is_bdd(e):
+        """the BDD manager of the guard context: self.bdd or a local bound to it"""
+        e = resolve(e)
+        fpth = field_path(e)
+        return bool(fpth) and fpth[0] == "self" and fpth[2] == ["bdd"]
     seen = set()
     for alt, arm in match_arms(m):
         vp = variant_pat(alt)
         b = peel(peel_block(arm["body"]))
         if vp is None:
             term = [x for x in walk(arm["body"]) if x.get("k") == "mcall" and x["name"] == "terminal"]
-            ok = len(term) == 1 and eb and is_local(term[0]["args"][0], eb[1]) and "guard" not in arm
+            ok = len(term) == 1 and eb and is_local(term[0]["args"][0], eb[1]) and "guard" not in arm and is_bdd(term[0]["recv"])
             ctx.inst("R20.3", "expr_to_guard:other->terminal", ok, arm["sp"], "every other expression must become a terminal for that very expression")
             continue
         vn = vname(vp[0])
         seen.add(vn)
         if vn == "BVLiteral":
             vbs = [binding_of(sp) for sp in vp[1].values()]
-            ok = b.get("k") == "mcall" and b["name"] == "constant" and show(b["args"][0]).replace(" ", "") == "%s.is_true()" % (vbs[0][0] if vbs and vbs[0] else "?")
+            a0 = peel(b["args"][0]) if b.get("k") == "mcall" and b.get("args") else {}
+            ok = b.get("k") == "mcall" and b["name"] == "constant" and is_bdd(b["recv"]) and a0.get("k") == "mcall" and a0["name"] == "is_true" and bool(vbs) and vbs[0] is not None and is_local(a0["recv"], vbs[0][1])
             ctx.inst("R20.3", "expr_to_guard:BVLiteral", ok, arm["sp"], "a Boolean literal must become constant(literal is true): %s" % show(b)[:80], sample=show(b)[:60])
             continue
         want = GUARD_ORACLE.get(vn)
@@ -324,7 +376,7 @@ def guard_table(ctx):
                     idxs.append(peel(a["i"])["v"])
                 else:
                     okargs = False
-        ok = okargs and b["name"] == want[0] and (idxs == want[1] or (want[0] in ("and", "or", "xor") and sorted(idxs) == want[1])) and "bdd" in show(b["recv"])
+        ok = okargs and b["name"] == want[0] and (idxs == want[1] or (want[0] in ("and", "or", "xor") and sorted(idxs) == want[1])) and is_bdd(b["recv"])
         ctx.inst("R20.3", "expr_to_guard:%s" % vn, ok, arm["sp"], "%s must become %s over children %s: %s" % (vn, want[0], want[1], show(b)[:80]), sample=show(b)[:60])
     for vn in list(GUARD_ORACLE) + ["BVLiteral"]:
         if vn not in seen:
